@@ -303,6 +303,48 @@ def check_problem(rng, p, rep, lines, metas, methods):
                     "what": "raw SciPy converged to the manufactured optimum but optyx did not report it",
                     "problem": dump(p), "method": method, "optyx_status": s.status.name,
                     "optyx_gap": float(gap), "raw_gap": float(raw_gap), "message": s.message[:120]})
+    # ---- a later solve of the same Problem object after a bound was edited (solves are repeated
+    #      in practice; the optimum moves, the reference is raw SciPy on the edited problem)
+    if rng.random() < 0.6:
+        i = rng.randrange(p["n"])
+        lb, ub = p["bounds"][i]
+        if rng.random() < 0.5:
+            ub = float(p["xstar"][i] - 0.5)
+            lb = None if lb is None or lb >= ub else lb
+        else:
+            lb = float(p["xstar"][i] + 0.5)
+            ub = None if ub is None or ub <= lb else ub
+        p2 = dict(p)
+        p2["bounds"] = list(p["bounds"])
+        p2["bounds"][i] = (lb, ub)
+        list(xv)[i].lb, list(xv)[i].ub = lb, ub
+        x0_2 = initial_point(p2["bounds"])
+        for method in [m for m in methods if not (m == "L-BFGS-B" and has_cons)][:2]:
+            with MinimizeSpy() as spy:
+                with warnings.catch_warnings():
+                    warnings.simplefilter("ignore")
+                    try:
+                        s2 = P.solve(method=method)
+                    except Exception as ex:  # noqa: BLE001
+                        rep.oracle_failures.append({"what": f"re-solve after a bound edit raised {type(ex).__name__}: {ex}"[:300],
+                                                    "problem": dump(p), "edited_bounds": p2["bounds"], "method": method})
+                        continue
+            rep.evaluations += 1
+            used = spy.calls[0]["method"] if spy.calls else method
+            raw2 = raw_solve(p2, used, x0_2)
+            raw2_ok = bool(raw2.success) and feasible(p2, raw2.x)
+            rep.histogram["resolve_raw_ok" if raw2_ok else "resolve_raw_not_ok"] = \
+                rep.histogram.get("resolve_raw_ok" if raw2_ok else "resolve_raw_not_ok", 0) + 1
+            if raw2_ok:
+                xo = np.array([s2.values.get(v.name, np.nan) for v in xv]) if s2.values else np.full(p["n"], np.nan)
+                fo = f(xo) if np.all(np.isfinite(xo)) else np.inf
+                fr = f(raw2.x)
+                if not (s2.status.name == "OPTIMAL" and feasible(p2, xo) and fo <= fr + 1e-4 * (1 + abs(fr))):
+                    rep.oracle_failures.append({
+                        "what": "after editing a bound, raw SciPy on the edited problem converged but the re-solve through "
+                                "the same Problem object did not report that optimum",
+                        "problem": dump(p), "edited_bounds": p2["bounds"], "method": method,
+                        "optyx_status": s2.status.name, "optyx_f": float(fo), "raw_f": float(fr)})
     key = (p["n"], p["is_max"], len(p["cons"]), tuple(p["xstar"].tolist()), tuple(np.diag(p["Q"]).tolist()))
     rep.nontrivial.add(hash(key))
     if len(rep.samples) < 3:
@@ -397,9 +439,34 @@ def search(ctx, rep):
 def replay(payload) -> bool:
     f = payload["failure"]
     p = undump(f["problem"])
+    method = f.get("method", "auto")
+    if "edited_bounds" in f:
+        # deterministic replay of a solve / edit-bound / solve history
+        hf, _, _ = hand_f(p)
+        for seed in range(6):
+            P, xv = build_optyx(core.Rng(seed), p)
+            with warnings.catch_warnings():
+                warnings.simplefilter("ignore")
+                P.solve(method=method)
+                p2 = dict(p); p2["bounds"] = [tuple(b) for b in f["edited_bounds"]]
+                for v, (lb, ub) in zip(xv, p2["bounds"]):
+                    v.lb, v.ub = lb, ub
+                with MinimizeSpy() as spy:
+                    s2 = P.solve(method=method)
+            used = spy.calls[0]["method"] if spy.calls else method
+            raw2 = raw_solve(p2, used, initial_point(p2["bounds"]))
+            if not (raw2.success and feasible(p2, raw2.x)):
+                continue
+            xo = np.array([s2.values.get(v.name, np.nan) for v in xv]) if s2.values else np.full(p["n"], np.nan)
+            fo = hf(xo) if np.all(np.isfinite(xo)) else np.inf
+            ok = s2.status.name == "OPTIMAL" and feasible(p2, xo) and fo <= hf(raw2.x) + 1e-4 * (1 + abs(hf(raw2.x)))
+            print("re-solve:", s2.status.name, "f_optyx=", fo, "f_raw=", hf(raw2.x))
+            if not ok:
+                return False
+        return True
     for seed in range(10):
         rep = core.Report()
-        check_problem(core.Rng(seed), p, rep, [], [], [f.get("method", "auto")])
+        check_problem(core.Rng(seed), p, rep, [], [], [method])
         if rep.oracle_failures:
             print(rep.oracle_failures[0])
             return False
